@@ -390,3 +390,42 @@ func ZZ_C19_failSurvivesAFailedRollbackWrite() {
 	nondet.Observe("state", string(final.Status.State))
 	nondet.Reach("C19.fail-retry.spec-write-rejected-then-replicaset-sync", rejected == "spec" && final.Spec.Template.Spec.Containers[0].Image == "agent:A")
 }
+
+// ZZ_C19_commandsAfterTheCanaryWasSuperseded: "validate promotes exactly the replica set that was the
+// canary when the command ran", "fail leads to the rollback" — when the template was edited again
+// during the canary: A is active, B was the canary, the template is now C (its replica set exists)
+// and the status, written before the edit, still names B.  The ExtendedDaemonSet reconciles, the user
+// runs `canary validate` or `canary fail`, the controller reconciles again (twice): validate promotes
+// C — the canary at the time of the command — and fail rolls back to A; in neither case does the
+// ExtendedDaemonSet stay in state Canary with a replica set nobody is looking at.
+func ZZ_C19_commandsAfterTheCanaryWasSuperseded() {
+	c, ds := zzScenario("canary")
+	ds.Spec.Template = zzTpl("C")
+	rsC := zzRSFor(ds, "C", "foo-c")
+	c.ERS = append(c.ERS, rsC)
+	nondet.Assert("C19.superseded.reconcile-ok", zzReconcileEDS(c) == nil)
+	current := ""
+	if zzStored(c).Status.Canary != nil {
+		current = zzStored(c).Status.Canary.ReplicaSet
+	}
+	nondet.Assert("C19.superseded.status-names-the-current-canary", current == "foo-c")
+	cmd := nondet.String("cmd", "validate", "fail")
+	var err error
+	if cmd == "validate" {
+		err = (&validateOptions{client: c, IOStreams: zzIO, userNamespace: "ns", userExtendedDaemonSetName: "foo"}).run()
+	} else {
+		err = (&failOptions{client: c, IOStreams: zzIO, userNamespace: "ns", userExtendedDaemonSetName: "foo", failStatus: true}).run()
+	}
+	nondet.Assert("C19.superseded.command-accepted", err == nil)
+	r1 := zzReconcileEDS(c)
+	r2 := zzReconcileEDS(c)
+	final := zzStored(c)
+	if cmd == "validate" {
+		nondet.Assert("C19.superseded.validate-promotes-the-current-canary", r1 == nil && r2 == nil && final.Status.ActiveReplicaSet == "foo-c" && final.Status.Canary == nil)
+	} else {
+		nondet.Assert("C19.superseded.fail-rolls-back", r1 == nil && r2 == nil && final.Status.ActiveReplicaSet == "foo-a" && final.Status.Canary == nil &&
+			final.Spec.Template.Spec.Containers[0].Image == "agent:A")
+	}
+	nondet.Observe("state", string(final.Status.State))
+	nondet.Reach("C19.superseded.validated", cmd == "validate" && final.Status.ActiveReplicaSet == "foo-c")
+}
